@@ -195,6 +195,7 @@ pub fn two_party(case: &str, seed: u64, k: &Knobs, content: Vec<u8>) -> Scenario
         preset_ids: vec![],
         forget_puts: vec![],
         stall_after: vec![],
+        plant_sparse: vec![],
     }
 }
 
